@@ -156,8 +156,8 @@ def zterm(x):
     if isinstance(x, bool):
         return z3.BoolVal(x)
     if isinstance(x, int):
-        return z3.IntVal(x)
-    raise HarnessError("zterm: unsupported %r" % type(x))
+        return z3.IntVal(int(x))
+    raise HarnessError("zterm: unsupported %r" % (type(x),))
 
 
 def zbool(term):
@@ -405,3 +405,111 @@ def run_native(fn, model=None, profile=None):
         if profile is not None:
             sys.setprofile(None)
         CTX.mode = 'idle'
+
+
+# --------------------------------------------------------------------------
+# branch-free combinators (DESIGN.md 3.2): one z3 term, no Python-level forks.
+def _is_sym(x):
+    return isinstance(x, (SymbolicInt, SymbolicBool))
+
+
+def _lift(op, args):
+    with NoTracing():
+        if CTX.mode != 'sym' or not any(_is_sym(a) for a in args):
+            return None
+        return [zterm(a) for a in args]
+
+
+def s_and(*xs):
+    with NoTracing():
+        z = _lift(None, xs)
+        if z is None:
+            return all(bool(x) for x in xs)
+        return SymbolicBool(z3.And(*z))
+
+
+def s_or(*xs):
+    with NoTracing():
+        z = _lift(None, xs)
+        if z is None:
+            return any(bool(x) for x in xs)
+        return SymbolicBool(z3.Or(*z))
+
+
+def s_not(x):
+    with NoTracing():
+        z = _lift(None, (x,))
+        if z is None:
+            return not x
+        return SymbolicBool(z3.Not(z[0]))
+
+
+def _cmp(a, b, f, g):
+    with NoTracing():
+        z = _lift(None, (a, b))
+        if z is None:
+            return f(a, b)
+        return SymbolicBool(g(z[0], z[1]))
+
+
+def s_eq(a, b):
+    return _cmp(a, b, lambda x, y: x == y, lambda x, y: x == y)
+
+
+def s_ne(a, b):
+    return _cmp(a, b, lambda x, y: x != y, lambda x, y: x != y)
+
+
+def s_le(a, b):
+    return _cmp(a, b, lambda x, y: x <= y, lambda x, y: x <= y)
+
+
+def s_lt(a, b):
+    return _cmp(a, b, lambda x, y: x < y, lambda x, y: x < y)
+
+
+def s_ge(a, b):
+    return s_le(b, a)
+
+
+def s_gt(a, b):
+    return s_lt(b, a)
+
+
+def s_between(lo, x, hi):
+    return s_and(s_le(lo, x), s_le(x, hi))
+
+
+def s_ite(c, a, b):
+    """if-then-else over ints (or bools) without forking."""
+    with NoTracing():
+        if CTX.mode != 'sym' or not any(_is_sym(v) for v in (c, a, b)):
+            return a if c else b
+        if not _is_sym(c):
+            return a if c else b
+        za, zb = zterm(a), zterm(b)
+        t = z3.If(c.var, za, zb)
+        if z3.is_bool(t):
+            return SymbolicBool(t)
+        return SymbolicInt(t)
+
+
+def s_min(a, b):
+    return s_ite(s_le(a, b), a, b)
+
+
+def s_iff(a, b):
+    with NoTracing():
+        z = _lift(None, (a, b))
+        if z is None:
+            return bool(a) == bool(b)
+        return SymbolicBool(z[0] == z[1])
+
+
+def s_implies(a, b):
+    return s_or(s_not(a), b)
+
+
+def is_symbolic(x):
+    with NoTracing():
+        return _is_sym(x)
